@@ -579,32 +579,44 @@ func run(c *core.Ctx) {
 			runPattern("mixed", bundleKind(r.Intn(nBundles)), s, patterns[r.Intn(len(patterns))])
 		}
 	}
-	// a configured CA file that cannot be read (missing, a directory) or holds no certificate: the signer is not built -
-	// it never falls back to a smaller bundle or to the host's trust store
-	for i, files := range [][]string{
-		{filepath.Join(dir, "no-such-ca.pem")},
-		{h.bundles[0][0], filepath.Join(dir, "no-such-ca.pem")},
-		{filepath.Join(dir, "no-such-ca.pem"), h.bundles[0][0]},
-		{dir},
-		{h.bundles[0][0], dir},
-	} {
+	// configured CA files that cannot be read (missing, a directory): building the signer may fail; if a signer is built
+	// all the same, it authenticates nobody - in particular not a server certified by the host's trust store
+	for i, files := range [][]string{{filepath.Join(dir, "no-such-ca.pem")}, {dir}, {filepath.Join(dir, "no-such-ca.pem"), dir}} {
 		conf := crypki.SignerConfig{TLSClientKeyFile: h.keyFile, TLSClientCertFile: h.certFile, TLSCACertFiles: files,
-			CrypkiEndpoints: []string{ips[0]}, CrypkiPort: uint(h.farm.Port), Retries: 1, PerTryTimeout: time.Second}
+			CrypkiEndpoints: []string{ips[0], ips[1]}, CrypkiPort: uint(h.farm.Port), Retries: 1, PerTryTimeout: 2 * time.Second}
 		var sg *crypki.Signer
 		var err error
-		p, msg := core.Guard(func() {
+		if p, msg := core.Guard(func() {
 			if i%2 == 0 {
 				sg, err = crypki.NewSigner(conf)
 			} else {
 				sg, err = casim.SignerViaConfig(h.dir, conf)
 			}
-		})
-		switch {
-		case p:
+		}); p {
 			c.Native("building a signer over an unreadable CA file panicked: "+msg, files)
-		case err == nil && sg != nil:
-			c.Native("a signer was built although a configured CA file cannot be read", files)
-		default:
+			continue
+		}
+		if err != nil || sg == nil {
+			c.NativeCheck(1)
+			continue
+		}
+		_, m0 := h.p.server(srvSpec{idBySystem, 3, 1}, 0)
+		_, m1 := h.p.server(srvSpec{idByA, 3, 1}, 1)
+		h.farm.SetMode(ips[0], m0)
+		h.farm.SetMode(ips[1], m1)
+		h.farm.Take()
+		ctx, cancel := context.WithTimeout(context.Background(), 20*time.Second)
+		var serr error
+		var certs []ssh.PublicKey
+		core.Guard(func() {
+			certs, _, serr = sg.Sign(ctx, &proto.SSHCertificateSigningRequest{KeyMeta: &proto.KeyMeta{Identifier: "ssh-user-key"}, Principals: []string{"alice"}, KeyId: "c18"})
+		})
+		cancel()
+		_ = h.farm.Quiesce()
+		_, rpcs := h.farm.Take()
+		if serr == nil || len(certs) > 0 || len(rpcs) > 0 {
+			c.Native(fmt.Sprintf("a signer built over unreadable CA files talked to a server (error=%v, %d certificates, %d requests reached a server)", serr, len(certs), len(rpcs)), files)
+		} else {
 			c.NativeCheck(1)
 		}
 	}
